@@ -2,6 +2,8 @@
 
 #include "ccl/rslang/RSExpr.h"
 
+#include <map>
+
 using JSON = nlohmann::ordered_json;
 
 namespace {
@@ -386,10 +388,15 @@ namespace lang {
 void to_json(JSON& object, const LexicalTerm& term) {
   object = term.Text();
   object["forms"] = JSON::array();
+  // Note: manual forms live in an unordered_map - order them so that the document is stable
+  std::map<std::string, std::string> orderedForms{};
   for (const auto& [form, text] : term.GetAllManual()) {
+    orderedForms.emplace(form.ToString(), text);
+  }
+  for (const auto& [tags, text] : orderedForms) {
     object["forms"] += JSON{
       {"text", text},
-      {"tags", form.ToString()}
+      {"tags", tags}
     };
   }
 }
